@@ -911,7 +911,14 @@ func (w *fwalk) resolve(fun ast.Expr, nargs int) (targets []string, kind string,
 		return targets, "byname", recv
 	}
 	if tv, ok := a.info.Types[fun]; ok {
+		if tv.IsType() {
+			return nil, "", "" // a conversion such as []byte(x) is not a call
+		}
 		return a.dynamic(tv.Type, nargs), "dynamic", ""
+	}
+	switch fun.(type) {
+	case *ast.ArrayType, *ast.MapType, *ast.ChanType, *ast.FuncType, *ast.InterfaceType, *ast.StructType, *ast.StarExpr:
+		return nil, "", "" // type expression in call position: a conversion
 	}
 	return nil, "", ""
 }
